@@ -95,11 +95,13 @@ theorem assign_fresh (f : Fun) (t : Target) (h : viewAssignImpure f.depth f.isIn
     have e2 : ¬ t.rootKind = Kind.resource := fun e => h2.2 e.symm
     simp [h1.1, h2.1, e1, e2, hd]
 
-def Clean (e : Effect) : Prop := e = .freshWrite ∨ e = .event
+/-- an effect allowed to a view function; with `noEmit` events are excluded too -/
+def Clean (noEmit : Bool) (e : Effect) : Prop := e = .freshWrite ∨ (noEmit = false ∧ e = .event)
 
-theorem frame_aux (p : Program) (hc : purityCheck p = true) (hb : BuiltinsSound p) :
+theorem frame_aux (p : Program) (hc : purityCheck p = true) (hb : BuiltinsSound p) (noEmit : Bool)
+    (hne : noEmit = true → ∀ f ∈ p, Stmt.emit ∉ f.body) :
     ∀ (fuel : Nat) (f : Fun), f ∈ p → f.purity = .view →
-      ∀ ss, (∀ s ∈ ss, s ∈ f.body) → ∀ e ∈ execStmts p f fuel ss, Clean e := by
+      ∀ ss, (∀ s ∈ ss, s ∈ f.body) → ∀ e ∈ execStmts p f fuel ss, Clean noEmit e := by
   intro fuel
   induction fuel with
   | zero =>
@@ -137,7 +139,11 @@ theorem frame_aux (p : Program) (hc : purityCheck p = true) (hb : BuiltinsSound 
           have := hb f hf effs (hsub _ (List.mem_cons_self ..))
           subst this; cases he
         | destroy => simp [impureCount] at hs0
-        | emit => simp [execStmt] at he; subst he; right; rfl
+        | emit =>
+          simp [execStmt] at he; subst he
+          cases hn : noEmit with
+          | true => exact absurd (hsub _ (List.mem_cons_self ..)) (hne hn f hf)
+          | false => right; exact ⟨rfl, rfl⟩
       · exact ih (fun s hs => hsub s (List.mem_cons_of_mem _ hs)) e he
   | succ fuel ihf =>
     intro f hf hv ss
@@ -182,7 +188,11 @@ theorem frame_aux (p : Program) (hc : purityCheck p = true) (hb : BuiltinsSound 
           have := hb f hf effs (hsub _ (List.mem_cons_self ..))
           subst this; cases he
         | destroy => simp [impureCount] at hs0
-        | emit => simp [execStmt] at he; subst he; right; rfl
+        | emit =>
+          simp [execStmt] at he; subst he
+          cases hn : noEmit with
+          | true => exact absurd (hsub _ (List.mem_cons_self ..)) (hne hn f hf)
+          | false => right; exact ⟨rfl, rfl⟩
       · exact ih (fun s hs => hsub s (List.mem_cons_of_mem _ hs)) e he
 
 end Verif.Proofs.Lang3.Purity
